@@ -11,6 +11,22 @@ TB = ("Trusted: go/types + go/ssa (x/tools v0.29.0); the neo-go compiler maps th
 
 # id -> (level, technique, text, design_ref, implemented)
 P = {
+ "C01": ("other",
+         "abstract interpretation (CNF must-fact dataflow over inlined SSA) + term agreement of legs/supply/notifications + who-may-write over key families",
+         "Decides, for all inputs and all paths of every Balance method, the step obligations of the inductive argument behind 'supply = sum of balances, no negative balance': single writers of the account family and the supply key; debit = loaded(from).Balance - amount (or delete when equal), credit = loaded(to).Balance + amount with the same amount term; Mint/Burn move the supply by exactly that amount (Burn under supply >= amount); amount >= 0 and Balance >= amount established at the stores; credit loaded after the debit store (self-transfer); refusal leaves no effect; exactly one Transfer/TransferX with the legs' arguments and no other emitter. This is a sound structural necessary condition for every history, not an execution of histories, hence 'other'.",
+         "§5 C01"),
+ "C02": ("other",
+         "abstract interpretation: entailment of (not executed or witness-of-account or caller-is-account or Alphabet) at every site that can lower a balance",
+         "For every store/delete of an account record in every Balance method the exit facts entail: not executed, or the witness of the account keyed by that record, or the caller being it, or the Alphabet 2/3+1 multisignature; a credit is exempt only where amount >= 0 is established; the public transfer executes no effect on a path returning false. Holds for every argument tuple because every path is covered; signer sets at run time are not enumerated, hence 'other'.",
+         "§5 C02"),
+ "C03": ("proof",
+         "abstract interpretation: CNF must-fact dataflow over the fully inlined SSA graph of every ABI method; entailment of (effect not executed or required witness) at every normal exit",
+         "For each of the non-safe ABI methods of the 11 contracts and each effect site reachable in its inlined graph, the facts at every normal exit entail 'not executed or required witness', the requirement coming from the documented table (DESIGN App. A). Because all paths of all methods are covered at once and a faulted transaction persists nothing, this is a proof that an invocation without the documented witnesses leaves no trace; thresholds are classified symbolically (2n/3+1 vs n/2+1 over the documented key source, every n); safe methods reach no effect; verify methods return true only under the documented multisignature. obligations == discharged is required for the check to pass.",
+         "§5 C03, App. A"),
+ "C09": ("other",
+         "abstract interpretation + term agreement at the refund call of NewEpoch and the lock record of Lock",
+         "Decides that Lock writes {0, until, from} at the lock account before transferring, that the NewEpoch refund is called only under Until != 0 and epochNum >= Until with from = scanned key, to = Parent, amount = Balance of the record loaded from that key, that the re-read by the debit leg cannot be preceded by another account store (so the record is deleted: no second unlock), that partial burns keep Until/Parent, and that a fresh deploy subscribes to the tick. Timing over tick schedules and iterator semantics are assumed, hence 'other'.",
+         "§5 C09"),
  "C15": ("translation_validation",
          "translation validation by recompilation with the pinned compiler + AST/SSA checks of embed set, deploy order, version",
          "Every shipped contract.nef, manifest.json and rpcbinding.go is regenerated from the working tree with the pinned neo-go 0.107.0 compiler (linked as a library) and compared byte-for-byte: every instruction, every manifest entry, every binding method. Embed set, deployment dependency order (derived from what each contract resolves when freshly deployed) and the Version constant are decided from the AST/SSA. Byte equality is the strongest possible correspondence, so the level is translation validation.",
